@@ -237,7 +237,7 @@ func (q *Query) Solve(dir, tag string, timeoutMs int) *SolveResult {
 		st, out, ms := runSolver(solvers[0], text, dir, tag, 1500)
 		res.Tried = append(res.Tried, solvers[0].name+":"+st)
 		if st == "unsat" {
-			res.Status, res.Solver, res.Output, res.Ms = st, solvers[0].name, out, ms
+			res.Status, res.Solver, res.Output, res.Ms = st, solvers[0].name+"(short)", out, ms
 			return res
 		}
 		res.Status = "unknown"
